@@ -14,20 +14,20 @@ P = {
  "C02": ("§5 C02", "Same induction for the min-max heap: ORD_mm re-established by every operation from every ordered state; peek_min/peek_max are true extremes over all stored priorities; pop_*/pop_*_if/peek_*_mut address the peeked element; sizes 0..3 separately; beyond the fully symbolic sizes the obligation is case-split on the position of the addressed element (identity tables)."),
  "C03": ("§5 C03", "Every operation's return value and effect on the abstract contents (key -> stored item value, priority) equals a direct-address reference table, from every structurally consistent pre-state (even unordered ones); read back through raw slots and through get/get_priority/get_mut/len/is_empty with a symbolic probe key, iter/into_iter/into_vec as multisets."),
  "C04": ("§5 C04", "From every structurally consistent state WITHOUT any order requirement (covers a leaked iter_mut) every operation passes all of Kani's checks (no panic, no arithmetic overflow, no out-of-bounds/dangling access through any get_unchecked) and ends structurally consistent with len() agreeing with all tables; constructors and bulk builders likewise."),
- "C05": ("§5 C05", "Bounded claim only: for every heap-ordered state up to the stated sizes and every argument, the number of Ord calls on the priority type made by one operation is within the single-path budget (one sift-up plus one sift-down; table in harness/src/cost.rs); peeks/lookups 0 (peek_max <= 1); a full rebuild within 2n / 7n. The asymptotic statement for unbounded n is NOT claimed."),
+ "C05": ("§5 C05", "Bounded claim only (no asymptotics): for every heap-ordered state up to the stated sizes and every argument, the number of Ord calls on the priority type made by one operation is within the single-path budget OF THE HEAP POSITION IT ADDRESSES (sift up from the depth of that position OR down over the levels below it, plus one round and two spare comparisons; nothing when the removed element sat in the last slot; new elements only rise); peeks and lookups make none (peek_max at most one); the bulk operations that rebuild (from a vector/iterator, retain, retain_mut, conversion, append, rewriting iter_mut) make at most one sift-down per internal node. Budgets separate logarithmic from linear work from n = 6/7 on (position split at n = 6, 7, 15, 16)."),
  "C06": ("§5 C06", "From every ordered state of n elements, complete consumption through into_sorted_iter (PriorityQueue; DoublePriorityQueue under every interleaving of next/next_back incl. calls after exhaustion) and the into_*sorted_vec functions yields every element once, each time an extreme of what remains; len() counts down exactly."),
  "C07": ("§5 C07", "From<Vec> first-wins, FromIterator/extend last-wins, append (receiver wins unless other longer, other left empty), conversions: contents equal the reference and the result is correctly ordered, for every legal size_hint class (lower bound 0, upper None, exact, far above, usize::MAX) and both extend strategies; two different hints on the same sequence give the same queue."),
  "C08": ("§5 C08", "retain/retain_mut (every concrete verdict pattern, symbolic rewrites), iter_mut (symbolic consumed prefix, symbolic rewrites, then drop) and the pop_if family (both verdicts, symbolic rewrite) from every ordered state: predicate call discipline, survivors/contents as requested, order restored."),
- "C09": ("§5 C09", "Protocol of both iter_mut iterators under a symbolic program of next/next_back calls (n+2 calls, so calls after exhaustion are included): all references handed out pairwise distinct (pointer comparison), every element exactly once, then None; where an exact size is declared, len() == size_hint() == remaining before every call."),
- "C10": ("§5 C10", "Crash point turned into data: at a symbolic k-th user callback (Ord on priorities, Eq/Hash on items, closures) inside each operation the raw tables are probed for mutual consistency at that instant; continuations are the C04 obligations from order-free states; leaked iter_mut/drain followed by use. Unwinding itself is not executed by the solver; cuts in DESIGN.md §4."),
+ "C09": ("§5 C09", "Protocol of both iter_mut iterators under a symbolic program of next/next_back calls (n+2 calls, so calls after exhaustion are included): all references handed out pairwise distinct (pointer comparison), every element exactly once, then None forever; len() and size_hint() exact at every step for every iter_mut type that DECLARES an exact size in the crate's current source (decided at compile time by autoref specialisation, so a newly added ExactSizeIterator impl is held to it)."),
+ "C10": ("§5 C10", "Crash point turned into data: at a symbolic k-th user callback (Ord on priorities, Eq/Hash on items, closures, the iterator feeding extend) inside each single-element operation, iter_mut drop, extend (both strategies), append (both queues) and retain/retain_mut the raw tables are probed for mutual consistency at that instant; continuations are the C04 obligations from order-free states plus, for the state a panicking retain predicate leaves (tables consistent, map short), one call of every operation under memory-safety checks only (panics tolerated); leaked iter_mut/drain followed by use under Kani's memory checks. A failed probe is reported only after native confirmation with REAL unwinding (panic at the recorded callback, caught, a continuation aborts on an unsafe-precondition check). Clone panics and drop-balance on unwinding paths are argued, not checked."),
  "C11": ("§5 C11", "push_increase/push_decrease from every ordered state, symbolic item and offer: absent / strictly better / equal / worse are distinguished; in the not-better cases the complete raw snapshot is bit-identical; order and contents otherwise as the reference."),
  "C12": ("§5 C12", "Items carry a payload ignored by Eq/Hash: updates through push/push_increase/decrease/change_priority (borrowed and owned lookup key with a different payload) leave the stored payload; payloads written through get_mut/peek*_mut/iter_mut are what the reference then holds; borrowed and owned keys address the same element."),
  "C13": ("§5 C13", "Protocol of iter, into_iter, drain and the sorted iterators under a symbolic program of next/next_back: every element once, None afterwards, never the same element from both ends; every type that declares ExactSizeIterator has len() == size_hint() == remaining before every call (the contract std adaptors rely on)."),
- "C14": ("§5 C14", "Two independent symbolic states (different arrangement and capacity): == holds iff the (item, priority) sets coincide, is symmetric and reflexive (hence an equivalence within the bound); a clone has the same tables, is equal, and neither side observes a push on the other."),
+ "C14": ("§5 C14", "Two independent symbolic states (different arrangement, capacity and -- with the per-instance keyed hasher -- hasher state): == holds iff the (item, priority) sets coincide, is symmetric and reflexive (hence an equivalence within the bound); a clone has the same tables, is equal, and neither side observes a push on the other; the same push on both keeps them equal."),
  "C15": ("§5 C15", "A purpose-built serde format hands the crate's Visitor symbolic pair sequences (concrete key pattern with repeats, symbolic payloads/priorities, with and without size hint) and collects what Serialize emits: round trips between both kinds give equal, ordered, usable queues; arbitrary sequences give Err or an ordered queue with each distinct item once; never a panic."),
  "C16": ("§5 C16", "drain with a symbolic consumption pattern from either end, then drop or mem::forget, and clear: yielded elements are distinct stored elements (all of them when fully consumed); afterwards the queue is empty, structurally consistent, peeks/pops None, and two following pushes behave as on a fresh queue."),
  "C17": ("§5 C17", "reserve/reserve_exact/try_reserve/try_reserve_exact/shrink_to_fit/with_capacity with concrete request classes (0, 1, 5, and byte-size-overflowing requests for try_*): raw snapshot unchanged, capacity() lower bounds, huge try_* returns Err without panic, a following push agrees with the reference. capacity() is the model map's; allocator refusal is outside the claim."),
- "C18": ("§5 C18", "The crate is instantiated with a hasher whose every finish() is a fresh unconstrained u64: the keyed operations still meet the reference for EVERY sequence of hash values (consistent or not, colliding or not), i.e. the crate never depends on a hash value. indexmap's own collision handling is trusted, not checked."),
+ "C18": ("§5 C18", "(i) The crate is instantiated with a hasher whose every finish() is a fresh unconstrained u64: the keyed operations still meet the reference for EVERY sequence of hash values (consistent or not, colliding or not), i.e. the crate never depends on a hash value. (ii) With a per-instance keyed hasher (every queue draws its own symbolic key, like RandomState) append, ==, clone, conversion, extend and the keyed operations meet the reference whatever the keys; a hash computed with one map's hasher and handed to another map's raw-entry API violates the environment contract the map model checks. (iii) new()/with_capacity() with std's RandomState (constructor stubbed by two unconstrained words). Collision handling inside hashbrown is indexmap's contract and is trusted."),
 }
 
 # properties whose quick check runs clean on the current tree
@@ -48,7 +48,7 @@ def main():
             replay_cmd_template=f"./check {p} --replay {{path}}",
             engine="kani-cbmc",
             level_claimed=dict(category="model_checking", text=text, design_ref="DESIGN.md " + ref),
-            level_note=("Bounded: sizes, key universe (16) and carrier types as stated in the evidence file; "
+            level_note=("Bounded: sizes, key universe (32) and carrier types as stated in the evidence file; "
                         "IndexMap replaced by the validated Vec-backed model (DESIGN.md §3.2); trusted: rustc/Kani "
                         "MIR->goto translation, CBMC, CaDiCaL, the reference table; unwinding assertions on."),
             technique=TECH,
